@@ -223,6 +223,15 @@ class StringifyMapper(Mapper):
                         expr.denominator, PREC_PRODUCT, *args, **kwargs)),
                 enclosing_prec, PREC_PRODUCT)
 
+    def map_rational(self, expr, enclosing_prec, *args, **kwargs):
+        # Written like a quotient, but not one of the classes that * / // %
+        # force parentheses around: as their operand, bring them along.
+        if enclosing_prec >= PREC_PRODUCT:
+            return self.parenthesize(
+                    self.map_quotient(expr, PREC_NONE, *args, **kwargs))
+        else:
+            return self.map_quotient(expr, enclosing_prec, *args, **kwargs)
+
     def map_floor_div(self, expr, enclosing_prec, *args, **kwargs):
         kwargs["force_parens_around"] = self.multiplicative_primitives
         return self.parenthesize_if_needed(
